@@ -158,7 +158,7 @@ func c03Random(r *core.Rng, budget int) *xp.Node {
 }
 
 func (p *c03) NumCases(tier string, seed int64) int {
-	return len(c03EnumList) + tierN(tier, 10000, 300000)
+	return len(c03EnumList) + tierN(tier, 40000, 2400000)
 }
 
 func (p *c03) gen(tier string, seed int64, idx int) *xp.Node {
